@@ -14,6 +14,9 @@ from odml.tools.xmlparser import XMLReader
 
 # in the include variant one name carries a '#' (the separator of URL and path)
 INC_NAMES = {"a": "a", "b": "b#2", "c": "c"}
+# in the link variant the two names of the model are made concrete in three ways: unrelated, one a proper
+# beginning of the other, differing in case only
+LINK_NAMES = [{"a": "a", "b": "b"}, {"a": "run1", "b": "run10"}, {"a": "Setup", "b": "setup"}]
 
 
 def render(p, names=None):
@@ -55,9 +58,8 @@ def replay(t):
 def run_case(t, inc):
     st, links = t["st"], t["links"]
     salt = CL.salt_of(st)
-    names = INC_NAMES if inc else None
-    if inc:
-        st = dict(st, name={h: INC_NAMES.get(n, n) for h, n in st["name"].items()})
+    names = INC_NAMES if inc else LINK_NAMES[salt % 3]
+    st = dict(st, name={h: names.get(n, n) for h, n in st["name"].items()})
     d = tempfile.mkdtemp(prefix="links", dir=os.environ.get("TMPDIR"))
     old_tmp = tempfile.tempdir
     tempfile.tempdir = d              # the library's download cache (tempdir/odml.cache) stays inside d
@@ -68,7 +70,7 @@ def run_case(t, inc):
             path = os.path.join(d, "target.xml")
             ODMLWriter("XML").write_file(target, path)
             url = "file://" + path
-        ref_of = {e["L"]: (url + "#" + render(e["path"], names) if inc else render(e["path"])) for e in links}
+        ref_of = {e["L"]: (url + "#" + render(e["path"], names) if inc else render(e["path"], names)) for e in links}
 
         def mk(h, k, s):
             if k == "sec" and h in ref_of:
